@@ -103,6 +103,13 @@ int SimOS::open_fd (SimFileP f, int flags, bool by_lib)
 	return fd ;
 }
 
+int SimOS::bind_fd (int fd, SimFileP f, int flags)
+{	SimFd &d = fds [fd] ;
+	d = SimFd () ;
+	d.f = f ; d.off = 0 ; d.flags = flags ; d.is_open = true ; d.opened_by_lib = false ;
+	return fd ;
+}
+
 // leaves `fill` in the 96 KiB of stack below the caller, where the frames of the library call about to be made will lie. Called
 // from the frame that makes the library call, immediately before it (GUARD), and not instrumented: apart from a return address
 // nothing else is left between the caller's frame and the filled region.
